@@ -31,10 +31,12 @@ HandleStillUsable ==
     AtRest => /\ BeginOK(s, [cls |-> "End", k |-> "none", tgt |-> "none", src |-> "none"])
               /\ \A k \in Kinds : BeginOK(s, [cls |-> "Init", k |-> k, tgt |-> "none", src |-> "none"])
 
+\* (worker threads of a threaded coder may allocate for the handle meanwhile: those ids are not the call's)
+NotHandle(ids) == ids \ s.hids
 \* a failed call on caller-owned objects leaves them and the ledger as they were
 CallerUnchanged ==
-    (AtRest /\ s.last.cls \in ObjClasses /\ s.last.ret # "OK") => (s.objs = s.snap /\ s.live = s.plive)
-OneShotBalanced == (AtRest /\ s.last.cls = "OneShot") => s.live = s.plive
+    (AtRest /\ s.last.cls \in ObjClasses /\ s.last.ret # "OK") => (s.objs = s.snap /\ NotHandle(s.live) = NotHandle(s.plive))
+OneShotBalanced == (AtRest /\ s.last.cls = "OneShot") => NotHandle(s.live) = NotHandle(s.plive)
 UpdateKeepsCaller == (AtRest /\ s.last.cls = "Update") => s.objs = s.snap
 
 \* everything is returned once the handle is ended and the caller's objects are freed
